@@ -17,11 +17,12 @@ TREES = [
 ]
 
 
-def run(ctx, binp, obs, inputs, info_all):
+def raw_universe(ctx, binp, obs, inputs, info_all, cfg=None):
+    """generate the raw segment-sequence universe and return (recorder function, trees file, requests file, size)"""
     q = ctx.quick()
     gen = os.path.dirname(ctx.path("gen", ".x"))
     rawout = os.path.join(gen, "raw.ndjson")
-    out, st = ctx.model_check("DavRaw", "DavRaw" if q else "DavRaw_thorough", env={"RAWOUT": rawout}, workers=8)
+    out, st = ctx.model_check("DavRaw", cfg or ("DavRaw" if q else "DavRaw_thorough"), env={"RAWOUT": rawout}, workers=8)
     nraw = sum(1 for _ in open(rawout))
     trees = os.path.join(gen, "c03-trees.ndjson")
     vlib.write_ndjson(trees, TREES)
@@ -34,6 +35,12 @@ def run(ctx, binp, obs, inputs, info_all):
         info_all.append(info)
         obs.extend(files)
         log("[F2] %s: %s" % (name, info))
+    return rec, trees, rawout, nraw
+
+
+def run(ctx, binp, obs, inputs, info_all):
+    q = ctx.quick()
+    rec, trees, rawout, nraw = raw_universe(ctx, binp, obs, inputs, info_all)
 
     styles = [0, 1, 2, 3]
     concs = ["id"] if q else ["id", "dots", "special"]
@@ -41,6 +48,9 @@ def run(ctx, binp, obs, inputs, info_all):
         for stl in styles:
             # the recorder shards by tree: with 3 trees, run the styles one after the other
             rec("raw-%s-s%d" % (conc, stl), mode="product", trees=trees, reqs=rawout, style=stl, conc=conc, follow="true")
+    if q:
+        # names that need escaping (blank, %, #, ?, non-ASCII, quotes): the hrefs reported for them must lead back to them
+        rec("raw-special-s0", mode="product", trees=trees, reqs=rawout, style=0, conc="special", follow="true")
     rec("rand", mode="rand", trees=trees, n=(3000 if q else 60000), conc="id")
     return checks_dav.judge_and_finish(ctx, binp, obs, inputs, info_all, len(TREES), nraw, tags=("C03", "C01"),
                                        extra_cov={"raw_request_universe": nraw, "spellings": styles, "concretisations": concs,
